@@ -26,7 +26,7 @@ use std::iter::{Filter, Peekable};
 //   currently not possible because CARGO_MANIFEST_DIR is not set
 //   in soong environment.
 // - use silent atomic rules for keywords like
-//   ENUM = @{ "enum" ~ WHITESPACE }
+//   ENUM = @{ "enum" ~ &(WHITESPACE | COMMENT) }
 //   currently not implemented in pest:
 //   https://github.com/pest-parser/pest/issues/520
 #[derive(pest_derive::Parser)]
@@ -51,13 +51,13 @@ integer = @{ hexvalue | intvalue }
 string = @{ "\"" ~ (!"\"" ~ ANY)* ~ "\"" }
 size_modifier = @{ "+" ~ intvalue }
 
-ENUM = @{ "enum" ~ WHITESPACE }
-PACKET = @{ "packet" ~ WHITESPACE }
-STRUCT = @{ "struct" ~ WHITESPACE }
-GROUP = @{ "group" ~ WHITESPACE }
-CHECKSUM = @{ "checksum" ~ WHITESPACE }
-CUSTOM_FIELD = @{ "custom_field" ~ WHITESPACE }
-TEST = @{ "test" ~ WHITESPACE }
+ENUM = @{ "enum" ~ &(WHITESPACE | COMMENT) }
+PACKET = @{ "packet" ~ &(WHITESPACE | COMMENT) }
+STRUCT = @{ "struct" ~ &(WHITESPACE | COMMENT) }
+GROUP = @{ "group" ~ &(WHITESPACE | COMMENT) }
+CHECKSUM = @{ "checksum" ~ &(WHITESPACE | COMMENT) }
+CUSTOM_FIELD = @{ "custom_field" ~ &(WHITESPACE | COMMENT) }
+TEST = @{ "test" ~ &(WHITESPACE | COMMENT) }
 
 endianness_declaration = ${ ("little_endian_packets" | "big_endian_packets") ~ WHITESPACE }
 
